@@ -211,6 +211,9 @@ func CreateLossItvls(pattern string) (LossItvls, error) {
 				return LossItvls{}, fmt.Errorf("invalid loss pattern %q", pattern)
 			}
 			dur = dur*10 + int(digit)
+			if dur > math.MaxInt32 {
+				return LossItvls{}, fmt.Errorf("invalid loss pattern %q", pattern)
+			}
 		}
 	}
 	if state != lossUnknown {
